@@ -1,6 +1,14 @@
 use std::panic;
+#[cfg(may_verif)]
+use crate::verif::atomic::{AtomicBool, AtomicUsize, Ordering};
+#[cfg(not(may_verif))]
 use std::sync::atomic::{AtomicBool, AtomicUsize, Ordering};
 use std::sync::Arc;
+#[cfg(may_verif)]
+use crate::verif::Instant;
+#[cfg(may_verif)]
+use std::time::Duration;
+#[cfg(not(may_verif))]
 use std::time::{Duration, Instant};
 
 use crate::cancel::Cancel;
